@@ -351,9 +351,11 @@ fn aux_transformed<F: Fl>(fl: &str, a: &[F], conf: &Confidence) -> Value {
         aux["tsem"] = stat(|| s.sample_sem());
         if fl == "geo" { aux["exp_tmean"] = stat(|| s.sample_mean().exp()); }
     }
-    if let Ok(s) = Arithmetic::<F>::from_iter(&a.to_vec()) { aux["amean"] = stat(|| s.sample_mean()); }
-    if let Ok(s) = Geometric::<F>::from_iter(&a.to_vec()) { aux["gmean"] = stat(|| s.sample_mean()); }
-    if let Ok(s) = Harmonic::<F>::from_iter(&a.to_vec()) { aux["hmean"] = stat(|| s.sample_mean()); }
+    // (always present: a state that cannot be built is reported as such)
+    let na = json!({"tag": "unavailable"});
+    aux["amean"] = match Arithmetic::<F>::from_iter(&a.to_vec()) { Ok(s) => stat(|| s.sample_mean()), Err(_) => na.clone() };
+    aux["gmean"] = match Geometric::<F>::from_iter(&a.to_vec()) { Ok(s) => stat(|| s.sample_mean()), Err(_) => na.clone() };
+    aux["hmean"] = match Harmonic::<F>::from_iter(&a.to_vec()) { Ok(s) => stat(|| s.sample_mean()), Err(_) => na.clone() };
     aux
 }
 
